@@ -885,14 +885,14 @@ class DefaultModelOutputConverter(ModelOutputConverter):
     if labels.shape[1] > 1 or len(labels.shape) > 2:
       raise ValueError('The input array must be of shape (num,) or (num, 1).')
 
-    labels = labels.flatten()
+    # Invert convert(): undo the sign flip first, then add the threshold back.
+    labels = labels.flatten() * (-1 if self._should_flip_sign else 1)
     if (
         self.shift_safe_metrics
         and self._original_metric_information.type.is_safety
     ):
-      labels -= self._original_metric_information.safety_threshold
+      labels += self._original_metric_information.safety_threshold
 
-    labels = labels * (-1 if self._should_flip_sign else 1)
     metrics = [
         pyvizier.Metric(value=l) if np.isfinite(l) else None for l in labels
     ]
